@@ -153,6 +153,7 @@ PROPS = {
 
 # ---- plug-ins: tools/prop_<ID>.py may define PROP (dict for PROPS[<ID>]) and GENS (dict of generators)
 import glob as _glob, importlib.util as _ilu, os as _os
+_PLUG = {}
 for _f in sorted(_glob.glob(_os.path.join(_os.path.dirname(_os.path.abspath(__file__)), "prop_*.py"))):
     _spec = _ilu.spec_from_file_location(_os.path.basename(_f)[:-3], _f)
     _m = _ilu.module_from_spec(_spec)
@@ -161,3 +162,29 @@ for _f in sorted(_glob.glob(_os.path.join(_os.path.dirname(_os.path.abspath(__fi
         gens.GENS.update(_m.GENS)
     if hasattr(_m, "PROP"):
         PROPS[_os.path.basename(_f)[5:-3]] = _m.PROP
+    _PLUG[_os.path.basename(_f)[5:-3]] = _m
+
+
+# ---- C07 also runs the "one huge update call" job of C17 for Grøstl (a message is a message, however
+#      it is fed): one > 2^29-byte slice in a single `update` vs the same bytes in 1 MiB calls, exact counter
+def _c07_extra(pid, tier, seed):
+    import cclib
+    m = _PLUG["C17"]
+    out = {"coverage": {"single_update_jobs": 0}, "violations": [], "evaluations": 0}
+    for cfg in (["std-release", "std-debug"] if tier == "thorough" else ["std-release"]):
+        ok, binp, hlog = cclib.harness_build(cfg)
+        if not ok:
+            continue
+        for (bits, b) in (m.GROESTL if tier == "thorough" else m.GROESTL[1:2]):
+            N = 2 ** 29 + 5
+            prefix = (seed * 13 + bits) % b
+            good, what, detail, ev = m._job_single_call("groestl", cfg, binp, str(bits), b, prefix, N, seed % 1000, str((prefix + N) // b))
+            out["coverage"]["single_update_jobs"] += 1
+            out["evaluations"] += ev
+            if not good:
+                rp = cclib.write_replay(pid, seed, "single-update-groestl%d-%s" % (bits, cfg), detail + "\n")
+                out["violations"].append((what, rp, False))
+    return out
+
+
+PROPS["C07"]["extra"] = _c07_extra
